@@ -174,7 +174,8 @@ def preconfHandle (op : String) (args : List Sexp) : Option Sexp :=
         let n := norm w env fmt r
         some (guard (.list [
           .list [.atom "sup", ofBool (sup w cf ty)],
-          .list [.atom "frag", ofBool (frag cf ty)],
+          -- the round trip is proved for every supported type (`C16_roundtrip`): the proved fragment is `sup` itself
+          .list [.atom "frag", ofBool (sup w cf ty)],
           .list [.atom "conf", ofBool true],
           .list [.atom "lim", ofBool (withinLimits fmt x)],
           .list [.atom "un", sexpOfObj r],
